@@ -54,6 +54,29 @@ def double_entries(d):
     return {a: ss for a, ss in seen.items() if len(ss) > 1}
 
 
+def stored_over_limit(d):
+    """Affinity head-room of the STORED placement: per bucket (server, rack, pod, cell) the number of recorded
+    instances of one affinity name against the limits those instances carry (live instances of one affinity name
+    share one limit set in these histories).  A cycle deletes before it creates, so at every cut the store is
+    between two states the scheduler decided and never above a limit."""
+    z, H = d.z, d.H
+    count = {}
+    lim = {}
+    for s in d.srv.children(z.PLACEMENT):
+        if s not in H.servers:
+            continue
+        for a in d.srv.children(z.path.placement(s)):
+            ha = H.apps.get(a)
+            if ha is None:
+                continue
+            for level, node in oracles.ancestors(H, s):
+                key = (level, node, ha['affinity'])
+                count[key] = count.get(key, 0) + 1
+                if level in ha['limits']:
+                    lim[key] = min(lim.get(key, INF), ha['limits'][level])
+    return {k: (n, lim[k]) for k, n in count.items() if k in lim and n > lim[k]}
+
+
 # ---------------------------------------------------------------------------
 # C10
 def cut_and_restart(h, when, op, path, k):
@@ -84,6 +107,43 @@ def cut_and_restart(h, when, op, path, k):
     if dbl:
         out['violations'].append(('double-placement-after-restart:' + when, str(dbl)))
     return out
+
+
+class HeadroomSession:
+    """C04 at the store: while the master publishes (init_schedule / reschedule), before each of its writes - the
+    state a crash at that point leaves to the successor, which restores recorded placements verbatim - the stored
+    placement must respect the affinity limits at every level.  Inline (no fork): only the store is read."""
+    armed = False
+
+    def __init__(self, h, ctx):
+        self.h, self.ctx = h, ctx
+        self.when = None
+
+    def _check(self, op, path):
+        d = self.h.d
+        self.ctx.count('stored_affinity_headroom_checked_at_cut')
+        over = stored_over_limit(d)
+        if over:
+            (level, node, aff), (n, lim) = sorted(over.items())[0]
+            self.ctx.violation('limit-exceeded:stored-at-cut:%s' % level,
+                               'a master that stops before %s %s of %s leaves %d recorded instances of affinity %s in %s %s '
+                               '(limit %s) to its successor' % (op, path, self.when, n, aff, level, node, lim),
+                               case=dict(ops=d.ops[-40:], cycle=self.h.cycles))
+            d.srv.before_write = None
+
+    def arm(self, when):
+        d = self.h.d
+        self.when = when
+        self.armed = True
+
+        def hook(client, op, path):
+            if client is d.mclient:
+                self._check(op, path)
+        d.srv.before_write = hook
+
+    def disarm(self, final=True):
+        self.armed = False
+        self.h.d.srv.before_write = None
 
 
 class CutSession:
